@@ -23,11 +23,17 @@ RULE = (
     "studies) and mirrors value thresholds (lower' = -upper, upper' = -lower), same seeds. "
     "Oracle (metamorphic): per trial the same params, state and reported steps, values and "
     "intermediate values that are exact negations in the flipped objectives, and the same "
-    "best_trial number / best_trials numbers. Non-trivial = at least one trial was pruned or "
-    "the sampler left its start-up phase; distinct = distinct (program, sampler, pruner, flip)."
+    "best_trial number / best_trials numbers. The programs report NaN / +inf / -inf at generated "
+    "steps. Sub-check 'pair_gp': the same with the GP sampler only (a few dozen pairs in the quick "
+    "tier). Sub-check 'pruner': pruner-only histories (C16's generator: up to 8 trials whose ask / "
+    "report / should_prune / tell calls are interleaved, every pruner incl. Patient-wrapped ones, "
+    "values on the 1/8 grid, percentiles multiples of 12.5, NaN and the infinity of either side) "
+    "run as given and mirrored: every pruning decision and Hyperband bracket must coincide. "
+    "Non-trivial = at least one trial was pruned or "
+    "the sampler left its start-up phase (pruner sub-check: two or more trials with reports); distinct = distinct (program, sampler, pruner, flip)."
 )
 ASSUMPTIONS = [
-    "exact mirroring rests on IEEE negation symmetry; percentiles are 25/50/75 and reported values dyadic, so no decision sits on an interpolation rounding",
+    "exact mirroring rests on IEEE negation symmetry; percentiles are multiples of 12.5 and reported values dyadic, so no decision sits on an interpolation rounding",
     "in-memory storage (storage independence is C09's subject); fixed study name",
 ]
 
